@@ -46,7 +46,7 @@ def optPairs (attrs : List Attr) (f : Attr → Option Val) : Json :=
 
 def snapJson (attrs : List Attr) (objs : List Obj) (ss : Sess) : Json :=
   Json.mkObj [
-    ("inTxn", .bool ss.inTxn), ("immediate", .bool ss.immediate),
+    ("alive", .bool ss.alive), ("inTxn", .bool ss.inTxn), ("immediate", .bool ss.immediate),
     ("toSave", jNats ss.toSave), ("forUpd", jNats (objs.filter ss.forUpd)),
     ("objs", .arr ((objs.filter (fun o => (ss.objs o).present)).map (fun o =>
       let os := ss.objs o
